@@ -16,7 +16,17 @@ class UserNode(NodeMixin):
             self.children = children
 
 
-CLS = {"anynode": AnyNode, "node": Node, "mixin": UserNode}
+class StrictNode(NodeMixin):
+    """a user class whose constructor does not know a `children` keyword (the docs' pattern)"""
+
+    def __init__(self, parent=None, **kwargs):
+        if "children" in kwargs:
+            raise TypeError("__init__() got an unexpected keyword argument 'children'")
+        self.__dict__.update(kwargs)
+        self.parent = parent
+
+
+CLS = {"anynode": AnyNode, "node": Node, "mixin": UserNode, "strict": StrictNode}
 SKIP = ("_NodeMixin__children", "_NodeMixin__parent")
 
 
@@ -124,6 +134,9 @@ def impl(case):
         jmax = jk.pop("jsonmaxlevel", None)
         custom = jk.pop("customdict", False)
         jkw = dict(jk)
+        if custom:
+            kw = dict(kw)
+            kw["maxlevel"] = case.get("dictmaxlevel")
         de = DictExporter(**kw) if custom else None
         je = JsonExporter(dictexporter=de, maxlevel=jmax, **jkw)
         text = je.export(root)
